@@ -73,3 +73,15 @@
                 r.pattern is None, r.acceptable_union_types is None, r.acceptable_list_type is None
         { unimplemented!() }
     }
+//# section: node-callees
+    // the other readers RustNode::try_from_node dispatches to are declared only (no contract: their results are arbitrary here)
+    impl<'n> TryFromNode<'n> for SimpleProps {
+        type Error = WriterError;
+        #[verifier::external_body]
+        fn try_from_node(node: Node<'n, 'n>, doc: &mut RustDocument) -> (res: WriterResult<Self>) { unimplemented!() }
+    }
+    impl<'n> TryFromNode<'n> for ElementProps {
+        type Error = WriterError;
+        #[verifier::external_body]
+        fn try_from_node(node: Node<'n, 'n>, doc: &mut RustDocument) -> (res: WriterResult<Self>) { unimplemented!() }
+    }
